@@ -32,10 +32,15 @@ def check_grad(op, case, rec, f64_tol=1e-5, f32_tol=2e-3):
     if gconst:
         rec.tag("g_constant")
     rec.nontrivial(o.data.size >= 2 and not gconst and op.nt(args, shp))
+    passes = 2 if case.get("twice") else 1
     try:
-        o.backward(Tensor(g.copy()))
+        for _ in range(passes):
+            o.backward(Tensor(g.copy()))
     except Exception as e:  # noqa: BLE001
         raise Violation("backward_raised", f"forward accepted but backward(g) raised {type(e).__name__}: {e}; {ctx}")
+    if passes == 2:
+        rec.tag("backward_twice")
+        ctx += " (backward called twice on the same graph: leaves accumulate)"
 
     def f(arrs):
         with sg.no_grad():
@@ -64,7 +69,7 @@ def check_grad(op, case, rec, f64_tol=1e-5, f32_tol=2e-3):
         # the comparison floor follows the case's magnitude: |d<g,f>/dx| ~ |g||f|/|x|
         # (only for the extreme scales, which are generated for cancellation-free ops only)
         floor = 1.0 if 1e-3 < sc < 1e3 else min(1.0, float(np.abs(want[i]).max()) or 1.0)
-        ok, err, scale = fd.close(gt.data, want[i], dt, f64_tol, f32_tol, floor=floor)
+        ok, err, scale = fd.close(gt.data, passes * want[i], dt, f64_tol, f32_tol, floor=floor)
         if not ok:
             raise Violation("grad_value",
                             f"operand {i}: max |grad - finite-difference VJP| = {err:.3e} (scale {scale:.3g}); "
